@@ -513,7 +513,12 @@ func (d *Data) sendBlocksVolume(ctx *datastore.VersionedCtx, w http.ResponseWrit
 	timedLog := dvid.NewTimeLog()
 	defer timedLog.Infof("SendBlocks %s, span x %d, span y %d, span z %d", blocksoff, blocksdims.Value(0), blocksdims.Value(1), blocksdims.Value(2))
 
-	numBlocks := int(blocksdims.Prod())
+	// the buffer only decouples reading from sending: keep it bounded however large the requested volume is
+	const maxBufferedBlocks = 1024
+	numBlocks := blocksdims.Prod()
+	if numBlocks < 0 || numBlocks > maxBufferedBlocks {
+		numBlocks = maxBufferedBlocks
+	}
 	wg := new(sync.WaitGroup)
 
 	// launch goroutine that will stream blocks to client
